@@ -28,6 +28,13 @@ CHECKS = {
          'families are evaluated on all 2^n inputs against a datasheet function table; fully exhaustive',
          'trusted: datasheet table in checks/c19.py; reference graph evaluator; unlisted families get pin checks only',
          'DESIGN.md section 4 C19'),
+
+ 'C17': ('exploration', 'small-scope complete graph enumeration vs. own Kahn/longest-path/reachability oracles',
+         'every graph with up to 4 nodes (combinational / dff / latch) and bounded line count, with explicit reader pins so every unconnected-pin '
+         'pattern occurs, is traversed by all five iterators and for all 2^N fan-in origin sets; every pool of <= 5 port/state names from seven '
+         'index schemes x declaration orders x all prefixes is looked up',
+         'trusted: the oracles in checks/c17.py; fan-in accepts both readings for state elements (exact on combinational graphs); D8 prefixes',
+         'DESIGN.md section 4 C17'),
 }
 
 NOT_YET = 'check not built yet in this session (see DESIGN.md build order); will be claimed once its exhaustive check exists'
